@@ -27,7 +27,7 @@ Print Assumptions opcode_roundtrip.
 
 Theorem set_opcode_then_opcode : forall m o, 0 <= o < 16 ->
   m_opcode (m_set_opcode m o) = o /\ Z.land (mflags (m_set_opcode m o)) 34815 = Z.land (mflags m) 34815.
-Proof. intros. split; [apply set_opcode_opcode; assumption|apply set_opcode_keeps_flags]. Qed.
+Proof. exact set_opcode_then_opcode_lemma. Qed.
 Print Assumptions set_opcode_then_opcode.
 
 Theorem edns_version_roundtrip : forall v ef, 0 <= v < 256 ->
@@ -52,7 +52,7 @@ Theorem render_parse : forall o m max_size request_payload w,
   org_ok o -> WfMsg o m -> wf_tsig m ->
   to_wire m o max_size request_payload false 0 = Ok w ->
   exists m', from_wire w o po0 = Ok m' /\ msg_equiv_t m' m.
-Proof. intros o m ms rp w OO. exact (render_parse_full_lemma o OO m ms rp w). Qed.
+Proof. exact render_parse_stmt. Qed.
 Print Assumptions render_parse.
 
 (* ... and rendering the parsed message again (same limit, no shuffling) reproduces the octets exactly:
@@ -78,7 +78,7 @@ Theorem update_forms_roundtrip : forall o m z max_size request_payload w,
   org_ok o -> WfUpd o m z -> wf_tsig m ->
   to_wire m o max_size request_payload false 0 = Ok w ->
   exists m', from_wire w o po0 = Ok m' /\ msg_equiv_t m' m.
-Proof. intros o m z ms rp w OO. exact (update_roundtrip_lemma o OO m z ms rp w). Qed.
+Proof. exact update_forms_roundtrip_stmt. Qed.
 Print Assumptions update_forms_roundtrip.
 
 (* ... and the parsed update renders to the same octets again *)
@@ -86,7 +86,7 @@ Theorem update_forms_rerender_identical : forall o m z max_size request_payload 
   org_ok o -> WfUpd o m z -> wf_tsig m ->
   to_wire m o max_size request_payload false 0 = Ok w -> from_wire w o po0 = Ok m' ->
   to_wire m' o max_size request_payload false 0 = Ok w.
-Proof. intros o m z ms rp w m' OO. exact (update_rerender_lemma o OO m z ms rp w m'). Qed.
+Proof. exact update_forms_rerender_stmt. Qed.
 Print Assumptions update_forms_rerender_identical.
 
 (* the header counts equal the records present (record sets count one per record, an empty set one;
@@ -98,7 +98,7 @@ Theorem counts_exact : forall o m max_size request_payload w,
     w = hdr_bytes (mid m) (mflags m) (zlen (mq m)) (rr_count (man m)) (rr_count (mau m))
                   (rr_count (mad m) + opt_count (mopt m) + opt_count (mtsig m)) ++ body /\
     exists m', from_wire w o po0 = Ok m'.
-Proof. intros o m ms rp w OO. exact (counts_exact_lemma o OO m ms rp w). Qed.
+Proof. exact counts_exact_stmt. Qed.
 Print Assumptions counts_exact.
 
 (* every name the renderer writes (compressed or not, absolute or completed with the origin) keeps
@@ -112,14 +112,14 @@ Theorem name_write_sound : forall o n c file t file' t',
     NameM.from_wire file' (length file) = Ok (L', length em) /\
     relz o L' = Ok n' /\ ci_equal n' n /\
     (forall ext endp, (length file' <= endp)%nat -> get_name (file' ++ ext) o endp (length file) = Ok (n', length file')).
-Proof. intros o n c file t file' t' OO. exact (name_write_sound_lemma o OO n c file t file' t'). Qed.
+Proof. exact name_write_sound_stmt. Qed.
 Print Assumptions name_write_sound.
 
 (* ... and the invariant holds for the final octets (after the header has been written) *)
 Theorem render_table_sound : forall o m max_size request_payload r,
   org_ok o -> WfMsg o m -> mtsig m = None -> to_wire_st m o max_size request_payload false 0 = Ok r ->
   TableSound (out r) (tbl r).
-Proof. intros o m ms rp r OO. exact (render_table_sound_lemma o OO m ms rp r). Qed.
+Proof. exact render_table_sound_stmt. Qed.
 Print Assumptions render_table_sound.
 
 (* ---- non-vacuity: a response with shared suffixes, a case variant, MX/NS/SOA names and EDNS ---- *)
